@@ -68,6 +68,10 @@ pub enum Ty {
     /// `Box<Option<T>>` (T an owned scalar leaf): a *mandatory* field whose value may be null - `Box` forwards neither
     /// `is_nil` nor `nil`, so the null is written explicitly and a missing field is an error
     BoxOpt(Box<Ty>),
+    /// `(Option<Vec<u8>>)` - the type in parentheses, as macro-generated code often has it - with `minicbor::bytes`: the macros
+    /// decide optionality of a field with a codec from the spelling, and this spelling is not `Option<..>`: the field is mandatory
+    /// and its `None` is an explicit null
+    ParenOptBytes,
 }
 
 #[derive(Clone, Debug)]
@@ -170,7 +174,7 @@ pub fn can_encode_null(t: &Ty, u: &Universe) -> bool {
     match t {
         Ty::NilWith | Ty::NilFns | Ty::NilOwn | Ty::OptAlias => true,
         Ty::BoxOf(x) => can_encode_null(x, u),
-        Ty::BoxOpt(_) | Ty::NilOwnDec | Ty::NilOwnEnc => true,
+        Ty::BoxOpt(_) | Ty::NilOwnDec | Ty::NilOwnEnc | Ty::ParenOptBytes => true,
         Ty::Struct(i) => match &u.defs[*i] { Def::Struct(s) if s.transparent => s.fields.iter().any(|f| f.optional || can_encode_null(&f.ty, u)), _ => false },
         _ => false
     }
@@ -189,15 +193,15 @@ impl Default for GenCfg { fn default() -> Self { GenCfg { allow_lifetimes: true,
 
 fn leaf_ty(r: &mut Rng, cfg: &GenCfg) -> Ty {
     loop {
-        let t = match r.below(28) {
+        let t = match r.below(29) {
             0 => Ty::U8, 1 => Ty::U16, 2 => Ty::U32, 3 => Ty::U64, 4 => Ty::I8, 5 => Ty::I16, 6 => Ty::I32, 7 => Ty::I64,
             8 => Ty::Bool, 9 => Ty::Char, 10 => Ty::F32, 11 => Ty::F64, 12 | 13 => Ty::String, 14 => Ty::Str, 15 => Ty::CowStr,
             16 => Ty::BytesVec, 17 => Ty::BytesSlice, 18 => Ty::BytesArr4, 19 => Ty::CowBytes, 20 => Ty::ByteVec, 21 => Ty::ByteSliceRef,
-            22 => Ty::NilWith, 23 => Ty::NilFns, 24 => Ty::NilOwn, 25 => Ty::OptAlias, 26 => Ty::CowByteSlice, _ => if r.bool_() { Ty::NilOwnDec } else { Ty::NilOwnEnc }
+            22 => Ty::NilWith, 23 => Ty::NilFns, 24 => Ty::NilOwn, 25 => Ty::OptAlias, 26 => Ty::CowByteSlice, 27 => Ty::ParenOptBytes, _ => if r.bool_() { Ty::NilOwnDec } else { Ty::NilOwnEnc }
         };
         let lt = matches!(t, Ty::Str | Ty::CowStr | Ty::BytesSlice | Ty::CowBytes | Ty::ByteSliceRef | Ty::CowByteSlice);
         if lt && !cfg.allow_lifetimes { continue }
-        if (ty_has_nil(&t) || matches!(t, Ty::NilOwnDec | Ty::NilOwnEnc)) && !cfg.allow_custom { continue }
+        if (ty_has_nil(&t) || matches!(t, Ty::NilOwnDec | Ty::NilOwnEnc | Ty::ParenOptBytes)) && !cfg.allow_custom { continue }
         if matches!(t, Ty::F32 | Ty::F64) && !cfg.allow_floats { continue }
         return t
     }
@@ -224,7 +228,7 @@ fn field_ty(r: &mut Rng, u: &Universe, cfg: &GenCfg, depth: usize) -> Ty {
 /// `with = minicbor::bytes` types and custom-codec types cannot be nested inside Vec/Box/Map (the codec attribute applies to the field).
 fn contains_field_level_codec(t: &Ty) -> bool {
     match t {
-        Ty::BytesVec | Ty::BytesSlice | Ty::BytesArr4 | Ty::CowBytes | Ty::NilWith | Ty::NilFns | Ty::NilOwn | Ty::OptAlias | Ty::NilOwnDec | Ty::NilOwnEnc => true,
+        Ty::BytesVec | Ty::BytesSlice | Ty::BytesArr4 | Ty::CowBytes | Ty::NilWith | Ty::NilFns | Ty::NilOwn | Ty::OptAlias | Ty::NilOwnDec | Ty::NilOwnEnc | Ty::ParenOptBytes => true,
         Ty::VecOf(x) | Ty::BoxOf(x) | Ty::MapU8(x) => contains_field_level_codec(x),
         _ => false
     }
